@@ -36,6 +36,7 @@ type Cfg struct {
 	ScopeSpread bool
 	Scale        int // multiplies declaration counts (1 = small)
 	Dirs         bool
+	Twins        bool // sometimes a five-file program with two different files of one base name in different directories, each included by its own includer
 	Services     bool
 	Scopes       bool
 	Consts       bool
@@ -547,6 +548,10 @@ func GenProgram(c *Cfg) func(t *rapid.T) *Program {
 	return func(t *rapid.T) *Program {
 		p := &Program{}
 		nf := rapid.IntRange(1, c.MaxFiles).Draw(t, "nfiles")
+		twins := c.Twins && !c.NoIncludes && rapid.IntRange(0, 5).Draw(t, "twins") == 0
+		if twins {
+			nf = 5 // 0: l/<name>, 1: r/<name>, 2 includes 0, 3 includes 1, 4 (root) includes 2 and 3
+		}
 		fileNames := newNamer()
 		pkgNames := newNamer()
 		var allTypes [][]avail
@@ -560,11 +565,26 @@ func GenProgram(c *Cfg) func(t *rapid.T) *Program {
 			if c.Dirs && rapid.IntRange(0, 2).Draw(t, "dir?") == 0 {
 				f.Dir = rapid.SampledFrom([]string{"sub", "deps/v1"}).Draw(t, "dir")
 			}
+			if twins {
+				switch fi {
+				case 0:
+					f.Dir = "l"
+				case 1:
+					f.Dir, f.Name = "r", p.Files[0].Name
+				}
+			}
 			b := &builder{c: c, t: t, p: p, fi: fi, f: f, names: newNamer()}
 			// includes: any earlier files (transitively earlier ones stay reachable only if included directly)
 			if !c.NoIncludes {
 				for j := 0; j < fi; j++ {
-					if rapid.IntRange(0, 2).Draw(t, "incl?") != 0 || (fi == nf-1 && j == fi-1) {
+					forced, want := twins, false
+					if twins {
+						want = fi == 2 && j == 0 || fi == 3 && j == 1 || fi == 4 && (j == 2 || j == 3)
+					}
+					if forced && !want {
+						continue
+					}
+					if forced && want || rapid.IntRange(0, 2).Draw(t, "incl?") != 0 || (fi == nf-1 && j == fi-1) {
 						f.Includes = append(f.Includes, j)
 						b.types = append(b.types, allTypes[j]...)
 						b.svcs = append(b.svcs, allSvcs[j]...)
